@@ -35,7 +35,14 @@ def handleVersions (j : Json) : Except String String := do
   return "ok versions constrained"
 
 def handleRun (j : Json) : Except String String := do
-  let lkm ← boolF j "lkm"
+  -- the facts about the ELF file the generator produced; the classification is computed by model and spec
+  let elf ← field j "elf"
+  let etype ← strF elf "type"
+  let sections ← mapM' (fun (x : Json) => x.getStr?) (← arrF elf "sections")
+  let lkm := isKernelModule etype sections
+  let specLkmFlag := specIsKernelModule etype sections
+  let nMarkers := (if sections.contains ".modinfo" then 1 else 0) + (if sections.contains ".gnu.linkonce.this_module" then 1 else 0)
+  let elfTag := if etype != "rel" then "" else if nMarkers == 1 then " elf-one-marker" else if nMarkers == 0 then " elf-rel-no-marker" else " elf-kernel-module"
   let partialArg : Option String := match optF j "partial" with
     | some (.str s) => some s
     | _ => none
@@ -63,7 +70,7 @@ def handleRun (j : Json) : Except String String := do
     else return s!"diff class=partial-invalid model=error impl={implS}"
   | .ok sel =>
     if !firedOk then return s!"diff class=all-checks-run-failed model=- impl={implS}"
-    let specSel := specSelect allModules Gen.Modules.modulesLkm partialArg lkm
+    let specSel := specSelect allModules Gen.Modules.modulesLkm partialArg specLkmFlag
     if !(sel.all (fun m => avail.contains m.name)) || !(specSel.all (fun m => avail.contains m.name)) then
       throw "selection not covered by the all-checks run"
     let modelS := showLabels (expectedLabels sel fired)
@@ -79,7 +86,7 @@ def handleRun (j : Json) : Except String String := do
       | none => pure ()
     if implS != modelS then return s!"diff class={mode} model={modelS} impl={implS}"
     let tag := if labels.isEmpty then "nowarnings" else "warnings"
-    return s!"ok {mode} {tag} constrained"
+    return s!"ok {mode} {tag} constrained{elfTag}"
 
 def handleE (line : String) : Except String String := do
   let j ← Json.parse line
